@@ -87,8 +87,10 @@ func GetToken(input string, valTy *ValType, pos *int) int {
 	if *pos >= len(input) { return -1 }
 	zzc := int(input[*pos]) - 'a'
 	*pos++
-	*valTy = ValType{}
-	zzx := (*pos)*31 + zzc + 1
+	// a lexer that keeps a running token count in the value record it is handed, as a line-counting lexer would;
+	// in one parse the count is the position (the record starts out zero at every Parser call)
+	valTy.zzseq++
+	zzx := valTy.zzseq*31 + zzc + 1
 	_ = zzx
 	switch zzc {
 %(cases)s
@@ -140,7 +142,11 @@ func Run(mode string, input string) string {
 GO_GLOBAL = '''
 func RunFresh(input string) string { return runOnce(func() *ValType { ParserInit(); return Parser(input) }) }
 func RunShared(input string) string { return RunFresh(input) }
-func runNested(input string) string { return "unsupported" }
+func runNested(input string) string {
+	PushContex()
+	defer PopContex()
+	return runOnce(func() *ValType { ParserInit(); return Parser(input) })
+}
 '''
 GO_OBJECT = '''
 var sharedCtx = MakeParserContext()
@@ -187,7 +193,7 @@ for (const job of %(jobs)s) {
 def go_text(g, pkg, obj):
     cases = ''.join('\tcase %d:\n\t\tvalTy.%s = zzx\n\t\treturn %s\n' % (i, t['tag'], tok_expr(g, i, 'go')) for i, t in enumerate(g['terms']))
     epi = GO_EPI % dict(cases=cases, starttag=g['nonterms'][g['start']]['tag'], modefuncs=GO_OBJECT if obj else GO_GLOBAL)
-    head = '%{\npackage ' + pkg + '\nimport "fmt"\nimport "strings"\n%}\n%union {\n v0 int\n v1 int\n v2 int\n}\n'
+    head = '%{\npackage ' + pkg + '\nimport "fmt"\nimport "strings"\n%}\n%union {\n v0 int\n v1 int\n v2 int\n zzseq int\n}\n'
     return head + decl_block(g, 'go') + '%%\n' + gram.render_rules(g, (lambda i, r: go_action(i, r, True)) if g.get('plain_actions') else go_action) + '%%\n' + epi
 
 
@@ -321,7 +327,7 @@ def run_i6(name, grammars, jobs, variants=ALL_VARIANTS, vet=False, race=False):
         if p in compile_fail:
             continue
         for (m, payload) in jobs.get(gname, []):
-            if m in ('nest', 'nestr') and vn not in ('op', 'ou'):
+            if m in ('nest', 'nestr') and vn not in ('op', 'ou', 'gp', 'gu'):
                 continue
             lines.append('%s\t%s\t%s' % (p, m, payload))
     res = {gname: {vn: {} for vn in variants} for (gname, _) in grammars}
